@@ -68,6 +68,12 @@ def run(tier):
     def st(fam, sd, acc=None, entry="main", extra=()):
         return {"family": fam, "seed": "c14-%s" % sd,
                 "args": ((["--accelerator-config", acc] if acc else []) + list(extra)) if entry == "main" else [], "entry": entry}
+    # process-global interpreter state (recursion limit) left behind by one entry point and relied on by another: deep
+    # operator chains first in a process through each entry point, and after a CLI compilation with a small --recursion-limit
+    histories.append([st("deep_chain:600", 1, entry="convert_bytes"), st("deep_chain:600", 1, entry="convert")])
+    histories.append([st("deep_chain:600", 1, entry="convert"), st("deep_chain:600", 1, entry="convert_bytes")])
+    histories.append([st("single:conv", 5, extra=["--recursion-limit", "500"]), st("deep_chain:250", 1, entry="convert_bytes"),
+                      st("deep_chain:250", 1, entry="convert")])
     # every tensor allocator on networks whose live ranges tie (several equal graph inputs used by one operator)
     for alloc in ("Greedy", "LinearAlloc", "HillClimb"):
         ex = ["--tensor-allocator", alloc]
